@@ -937,6 +937,46 @@ rule("D6.fs_read_to_string",
      "shim_read_to_string ( fname )",
      "fs::read_to_string (file system)")
 
+rule("D6.pathbuf_from_str",
+     "PathBuf :: from ( path )",
+     "shim_pathbuf_from_str ( path )",
+     "PathBuf::from(&str)")
+
+rule("D6.path_components",
+     "p . components ( ) . collect ( )",
+     "shim_components ( & p )",
+     "Path::components().collect::<Vec<Component>>()")
+
+rule("D6.pathbuf_from_lit",
+     "PathBuf :: from ( $l:str )",
+     "shim_pathbuf_from_str ( $l )",
+     "PathBuf::from(\"literal\")")
+
+rule("D6.pathbuf_push_clone",
+     "f . push ( p . clone ( ) )",
+     "shim_pathbuf_push ( & mut f , p . clone ( ) )",
+     "PathBuf::push(PathBuf)")
+
+rule("D6.pathbuf_from_component",
+     "PathBuf :: from ( c [ 2 ] . as_os_str ( ) )",
+     "shim_pathbuf_from_comp ( c [ 2 ] )",
+     "PathBuf::from(component.as_os_str())")
+
+rule("D6.pathbuf_push_component",
+     "s . push ( c [ 3 ] . as_os_str ( ) )",
+     "shim_pathbuf_push_comp ( & mut s , c [ 3 ] )",
+     "PathBuf::push(component.as_os_str())")
+
+rule("D6.split_colon",
+     "s . split ( \":\" ) . collect ( )",
+     "shim_split_colon ( s )",
+     "str::split(\":\").collect::<Vec<&str>>()")
+
+rule("D14.question_mark_call",
+     "$recv ( $(a) ) ?",
+     "( match $recv ( $(a) ) { Ok ( __v ) => __v , Err ( __e ) => return Err ( From :: from ( __e ) ) } )",
+     "`CALL(args)?` with an error conversion written out (definition of `?`)")
+
 rule("D6.take_digits",
      "$recv . chars ( ) . take_while ( char :: is_ascii_digit ) . collect ( )",
      "shim_take_ascii_digits ( $recv )",
